@@ -199,15 +199,43 @@ def run(facts, tier):
     if fn is None:
         t5.missing_anchor("prec_climb::climb1")
     else:
-        bins = [(n["op"], strip(n["l"]), strip(n["r"])) for n in find(fn["body"], lambda n: n.get("k") == "Binary" and n["op"] in (">", ">=", "<", "<=", "=="))]
-        def nm(x):
-            if x.get("k") == "Path":
-                return x["path"].get("local")
+        # classify operands by where their value comes from (not by variable names)
+        params = {}
+        for idx, pp in enumerate(fn["params"]):
+            for bnd in find(pp, lambda n: n.get("k") == "Bind"):
+                params[bnd["id"]] = idx
+        init = {}
+
+        def bind_inits(n, d):
+            if n.get("k") in ("Let", "LetExpr") and n.get("init") is not None:
+                for bnd in find(n["pat"], lambda x: x.get("k") == "Bind"):
+                    init[bnd["id"]] = n["init"]
+        walk(fn["body"], bind_inits)
+
+        def origin(x, depth=0):
+            x = strip(x)
+            if depth > 6:
+                return "?"
+            if x.get("k") == "Field":
+                return origin(x["e"], depth + 1)
+            if x.get("k") == "Path" and "local" in x["path"]:
+                lid = x["path"]["id"]
+                if lid in params:
+                    return f"param{params[lid]}"
+                if lid in init:
+                    return origin(init[lid], depth + 1)
+                return "closure-param"
             if x.get("k") == "MethodCall":
-                return x["m"]["name"] + "()"
+                nm_ = x["m"]["name"]
+                if nm_ == "precedence":
+                    return "prec(" + origin(x["recv"], depth + 1) + ")"
+                if nm_ in ("peek", "next_if", "next"):
+                    return nm_
+                return origin(x["recv"], depth + 1)
             return "?"
-        got = sorted((op, nm(l), nm(r)) for op, l, r in bins)
-        want = sorted([(">", "next_prec", "this_prec"), ("==", "next_prec", "this_prec"), (">=", "precedence()", "min_prec")])
+        bins = [(n["op"], origin(n["l"]), origin(n["r"])) for n in find(fn["body"], lambda n: n.get("k") == "Binary" and n["op"] in (">", ">=", "<", "<=", "=="))]
+        got = sorted(bins)
+        want = sorted([(">", "prec(peek)", "prec(next_if)"), ("==", "prec(peek)", "prec(next_if)"), (">=", "prec(closure-param)", "param2")])
         for w in want:
             t5.examined(w, True, {"comparison": f"{w[1]} {w[0]} {w[2]}", "present": w in got})
             if w not in got:
